@@ -266,6 +266,15 @@ def run_victim_file(sh, s, d, case, only=None):
             sh.count('victims_committed_after_foreign_calls')
             if fs.lastTransaction() != tid:
                 sh.violation('c05:file:commit-after-foreign-calls-wrong', {'victim': kindv}, dict(case, site=site))
+            elif kindv == 'blob':
+                # ... with everything it stored, the blob file included
+                try:
+                    with open(fs.loadBlob(blob_oid, tid), 'rb') as bf:
+                        gotb = bf.read()
+                except Exception as e:
+                    gotb = type(e).__name__
+                if gotb != b'victim blob ' * 100:
+                    sh.violation('c05:file:commit-after-foreign-calls-wrong', {'victim': kindv, 'blob': repr(gotb)[:60]}, dict(case, site=site))
             return nraw, len(steps), True, [True, ('foreign', 'protocol')]
         if exc is None and not fired[0]:
             # nothing failed and no abort point reached: the fault plan did not apply (e.g. k beyond the ops issued)
